@@ -59,6 +59,11 @@ def _run_task(arg):
         prog = program(mod.CRATE)
         r = mod.run_task(prog, tid, params, tier)
         r.setdefault('status', 'ok')
+        nb = (r.get('outcomes') or {}).get('bound', 0)
+        if r['status'] == 'ok' and nb and not r.get('bound_ok'):
+            # a path that was cut by a loop / step bound was not examined to its end: never a silent pass
+            r['status'] = 'inconclusive'
+            r['detail'] = '%d path(s) were cut by a loop or step bound and the spec does not account for them' % nb
     except Unsupported as e:
         r = {'status': 'inconclusive', 'detail': 'unsupported: %s' % e}
     except Exception as e:
@@ -96,7 +101,7 @@ def run_obligations(prop, obls, tier):
     for o in obls:
         rs = [r for r in results if r['oid'] == o.id]
         agg = {'status': 'ok', 'tasks': len(rs), 'queries': 0, 'solver_s': 0.0, 'paths': 0,
-               'outcomes': {}, 'functions': set(), 'covers_witnessed': 0, 'bound_hits': 0, 'task_results': [], 'traces_validated': 0}
+               'outcomes': {}, 'functions': set(), 'covers_witnessed': 0, 'bound_hits': 0, 'task_results': [], 'traces_validated': 0, 'violations': []}
         for r in rs:
             agg['queries'] += r.get('queries', 0)
             agg['solver_s'] += r.get('solver_s', 0.0)
@@ -107,24 +112,35 @@ def run_obligations(prop, obls, tier):
             for k, v in r.get('outcomes', {}).items():
                 agg['outcomes'][k] = agg['outcomes'].get(k, 0) + v
             agg['functions'].update(r.get('functions', ()))
-            agg['task_results'].append({k: r[k] for k in ('task', 'status', 'paths', 'queries', 'wall_s', 'detail', 'truncated', 'covers') if k in r})
-            if r['status'] == 'violation' and agg['status'] != 'violation':
+            agg['task_results'].append({k: r[k] for k in ('task', 'status', 'paths', 'queries', 'wall_s', 'detail', 'truncated', 'covers', 'bound_ok') if k in r})
+            if r['status'] == 'violation':
+                # every violating task is kept, one per role: a known finding in one task must not mask a new violation in another
+                role = r.get('role', 'any')
+                if any(v['role'] == role and v['confirmed'] for v in agg['violations']):
+                    continue
                 confirmed = replay_case(r.get('cex'))
-                if confirmed is None:
-                    agg['status'] = 'inconclusive'
-                    agg['detail'] = 'counter-example has no native replay entry: %s' % (r.get('detail'),)
-                elif confirmed:
-                    agg['status'] = 'violation'
-                    agg['detail'] = r.get('detail')
-                    agg['cex'] = r.get('cex')
-                    agg['role'] = r.get('role', 'any')
-                else:
-                    agg['status'] = 'inconclusive'
-                    agg['detail'] = 'counter-example did not reproduce natively (engine/model defect): %s %s' % (
-                        r.get('detail'), json.dumps(r.get('cex'), default=str)[:600])
-            elif r['status'] == 'inconclusive' and agg['status'] == 'ok':
+                agg['violations'].append({'role': role, 'detail': r.get('detail'), 'cex': r.get('cex'), 'task': r['task'],
+                                          'confirmed': bool(confirmed), 'no_entry': confirmed is None})
+            elif r['status'] == 'inconclusive' and not agg.get('inconclusive_detail'):
+                agg['inconclusive_detail'] = '%s: %s' % (r['task'], r.get('detail'))
+        conf = [v for v in agg['violations'] if v['confirmed']]
+        unconf = [v for v in agg['violations'] if not v['confirmed'] and not any(c['role'] == v['role'] for c in conf)]
+        if agg.get('inconclusive_detail'):
+            agg['status'] = 'inconclusive'
+            agg['detail'] = agg['inconclusive_detail']
+            agg.setdefault('unconfirmed', agg['inconclusive_detail'])
+        if conf:
+            agg['status'] = 'violation'
+            agg['detail'] = conf[0]['detail']
+            agg['cex'] = conf[0]['cex']
+            agg['role'] = conf[0]['role']
+        if unconf:
+            u = unconf[0]
+            agg['unconfirmed'] = ('counter-example has no native replay entry: %s' % (u['detail'],)) if u['no_entry'] else (
+                'counter-example did not reproduce natively (engine/model defect): %s %s' % (u['detail'], json.dumps(u['cex'], default=str)[:600]))
+            if not conf:
                 agg['status'] = 'inconclusive'
-                agg['detail'] = '%s: %s' % (r['task'], r.get('detail'))
+                agg['detail'] = agg['unconfirmed']
         agg['solver_s'] = round(agg['solver_s'], 2)
         agg['functions'] = sorted(agg['functions'])
         agg['models_used'] = sorted(MODELS.USED)
